@@ -113,8 +113,9 @@ def showCli (s : St) (k : Nat) : String :=
 def showSt (s : St) : String :=
   let fds := (if s.listening then 1 else 0) + (s.ids.filter (fun k => (s.cli k).srvFd)).length
   let ch := (s.ids.filter (fun k => (s.cli k).child)).length
-  "L" ++ b01 s.listening ++ " A" ++ b01 s.acceptAlive ++ " c" ++ toString s.clientsSet.length ++
-    " f" ++ toString s.fdToConn.length ++ " p" ++ toString s.pollReg.length ++ " q" ++ toString s.queue.length ++
+  "L" ++ b01 s.listening ++ " A" ++ b01 s.acceptAlive ++ " c" ++ toString (s.ids.filter (fun k => (s.cli k).tracked)).length ++
+    " f" ++ toString (s.ids.filter (fun k => (s.cli k).inFd)).length ++
+    " p" ++ toString (s.ids.filter (fun k => (s.cli k).polled)).length ++ " q" ++ toString s.queue.length ++
     " fd" ++ toString fds ++ " ch" ++ toString ch ++ "|" ++
     " ".intercalate ((s.ids.filter (fun k => (s.cli k).phase != .absent)).map (showCli s))
 
